@@ -467,11 +467,16 @@ structure Table where
   schema : Dict
 deriving Repr, Inhabited
 
+/-- `{k: v for k, v in val.items() if not k.startswith("$")}` for one value of the schemas dict -/
+def stripSchema (v : J) : J :=
+  match v with
+  | .obj s => .obj (stripDollar s)
+  | v => v
+
 /-- the `"schemas"` dict comprehension over `dict(map(…), ServerError=server_error_schema)` -/
 def bulkSchemas (ts : List Table) : Dict :=
-  let d := ts.foldl (fun (acc : Dict) t => setKey acc (bulkKey t.name) (.obj t.schema)) []
-  let d := setKey d serverError (.obj serverErrorSchema)
-  d.map (fun kv => (kv.1, match kv.2 with | .obj s => .obj (stripDollar s) | v => v))
+  (setKey (ts.foldl (fun (acc : Dict) t => setKey acc (bulkKey t.name) (.obj t.schema)) []) serverError
+    (.obj serverErrorSchema)).map (fun kv => (kv.1, stripSchema kv.2))
 
 /-- `itertools.groupby(routes, key=path)`: maximal runs of consecutive equal paths -/
 def groupBy : List RouteFn → List (Str × List RouteFn)
@@ -556,23 +561,34 @@ def bodiesOf : Dict → Except String (List (Str × J))
       | .error e => .error e
       | .ok tl => .ok (match h with | some x => x :: tl | none => tl)
 
+/-- the first half of `construct_parameters_and_request_bodies`: `parameters` and the rewritten route -/
+def withParams (route : Str) (pathDict : Dict) : Except String (Str × Dict) :=
+  if Py.contains route c!":" then
+    let pd0 := setKey pathDict c!"parameters" (.arr [])
+    match objectName pd0 with
+    | .ok obj => .ok (convertRoute route, setKey pd0 c!"parameters" (.arr (routeParams route obj)))
+    | .error e => .error e
+  else .ok (route, pathDict)
+
 /-- `construct_parameters_and_request_bodies(route, path_dict)`; returns (route', path_dict', new request bodies) -/
-def construct (route : Str) (pathDict : Dict) : Except String (Str × Dict × List (Str × J)) := do
-  let (route', pd) ← (if Py.contains route c!":" then do
-      let pd0 := setKey pathDict c!"parameters" (.arr [])
-      let obj ← objectName pd0
-      .ok (convertRoute route, setKey pd0 c!"parameters" (.arr (routeParams route obj)))
-    else .ok (route, pathDict) : Except String (Str × Dict))
-  let bodies ← bodiesOf pd
-  return (route', pd, bodies)
+def construct (route : Str) (pathDict : Dict) : Except String (Str × Dict × List (Str × J)) :=
+  match withParams route pathDict with
+  | .ok (route', pd) =>
+    match bodiesOf pd with
+    | .ok bodies => .ok (route', pd, bodies)
+    | .error e => .error e
+  | .error e => .error e
 
 /-- `dict(map(lambda k_v: construct(k_v[0], update_d(*…)), groupby(…)))` with the shared `request_bodies` -/
 def bulkGroups : List (Str × List RouteFn) → Dict → Dict → Except String (Dict × Dict)
   | [], rb, paths => .ok (rb, paths)
-  | (k, g) :: rest, rb, paths => do
-    let pd ← updateD g
-    let (route', pd', bodies) ← construct k pd
-    bulkGroups rest (update rb bodies) (setKey paths route' (.obj pd'))
+  | (k, g) :: rest, rb, paths =>
+    match updateD g with
+    | .ok pd =>
+      match construct k pd with
+      | .ok (route', pd', bodies) => bulkGroups rest (update rb bodies) (setKey paths route' (.obj pd'))
+      | .error e => .error e
+    | .error e => .error e
 
 /-- `parse_route`: the functions decorated on `app_name` -/
 def ofApp (appName : Str) (routes : List RouteFn) : List RouteFn := routes.filter (fun r => r.app == appName)
